@@ -540,13 +540,16 @@ Definition read_key_atom (rk : P skey) (key0 : bytes) : P skey :=
        end.
 
 (* readSearchKey: an atom-led key, or a parenthesised list of keys (Decoder.List counts the
-   nesting depth and refuses at maxListDepth) *)
-Fixpoint read_key (fuel depth : nat) (s : bytes) : option (skey * bytes) :=
+   nesting depth and refuses at maxListDepth). [kd] is readSearchKey's own depth argument: the
+   number of NOT / OR keys the key is an operand of; at maxSearchKeyDepth (the same bound) the
+   key is refused before anything is read. A list passes [kd] on unchanged. *)
+Fixpoint read_key (fuel depth kd : nat) (s : bytes) : option (skey * bytes) :=
   match fuel with
   | O => None
   | S f =>
+      if Nat.leb MAX_DEPTH kd then None else
       match key_atom s with
-      | DOk a r => read_key_atom (read_key f depth) a r
+      | DOk a r => read_key_atom (read_key f depth (S kd)) a r
       | DErr => None
       | DNo _ =>
           match dec_special (ch "(") s with
@@ -558,7 +561,7 @@ Fixpoint read_key (fuel depth : nat) (s : bytes) : option (skey * bytes) :=
                   if Nat.leb MAX_DEPTH (S depth) then None
                   else
                     match items_fold (S (length r))
-                            (fun acc => do k <- read_key f (S depth); ret (acc ++ [k])) [] r with
+                            (fun acc => do k <- read_key f (S depth) kd; ret (acc ++ [k])) [] r with
                     | Some (ks, r') => Some (KList ks, r')
                     | None => None
                     end
@@ -575,7 +578,7 @@ Fixpoint keys_loop (fuel : nat) (acc : list skey) (s : bytes) : option (list ske
   | S f =>
       match dec_sp s with
       | DOk _ r =>
-          match read_key (S (length r)) 0 r with
+          match read_key (S (length r)) 0 0 r with
           | Some (k, r') => keys_loop f (acc ++ [k]) r'
           | None => None
           end
@@ -601,8 +604,8 @@ Definition h_search (uid : bool) : P (list bcall) :=
               do a <- maybe key_atom; ret (opt_bytes a)
             else ret a1);
   do k0 <- (fun s => match a2 with
-                     | [] => read_key (S (length s)) 0 s
-                     | _ => read_key_atom (read_key (S (length s)) 0) a2 s
+                     | [] => read_key (S (length s)) 0 0 s
+                     | _ => read_key_atom (read_key (S (length s)) 0 1) a2 s
                      end);
   do ks <- (fun s => keys_loop (S (length s)) [k0] s);
   x_crlf;;
